@@ -45,6 +45,7 @@ type Profile struct {
 	ContextParams    bool
 	GroupedParams    bool
 	SliceQuery       bool
+	StrayController  bool // sometimes declare an annotated controller inside a type package (outside the globs)
 }
 
 var CoreProfile = Profile{
@@ -698,7 +699,7 @@ var FullProfile = Profile{
 	MaxControllers: 3, MaxMethods: 5, CtrlPackages: []string{"api", "api2", "internal/api3"},
 	Decoys: true, Hidden: true, Security: true, ExtraParams: 4, Types: true, TypePackages: []string{"models", "shared"},
 	Validators: true, Responses: true, SlashNoise: true, SharedPrefix: true, PtrParams: true, FormParams: true,
-	ContextParams: true, GroupedParams: true, SliceQuery: true, TrailingSlash: true,
+	ContextParams: true, GroupedParams: true, SliceQuery: true, TrailingSlash: true, StrayController: true,
 }
 
 // SecurityProfile biases towards C04: every level of security, varied scheme catalogue, enforce flag.
@@ -712,5 +713,5 @@ var RouterProfile = Profile{
 	MaxControllers: 4, MaxMethods: 8, MinMethods: 3, CtrlPackages: []string{"api", "api2", "internal/api3"},
 	Decoys: true, Hidden: true, Security: true, ExtraParams: 4, Types: true, TypePackages: []string{"models", "shared"}, FlatStructs: true,
 	Validators: true, Responses: true, SlashNoise: true, SharedPrefix: true, PtrParams: true, FormParams: true,
-	ContextParams: true, GroupedParams: true, SliceQuery: true, PtrPathParams: false, NoNamedInMaps: true, TrailingSlash: true,
+	ContextParams: true, GroupedParams: true, SliceQuery: true, PtrPathParams: false, NoNamedInMaps: true, TrailingSlash: true, StrayController: true,
 }
